@@ -695,8 +695,18 @@ class _AsyncioProxy:
         return getattr(asyncio, name)
 
 
+_ORIGINALS = {}
+
+
+def uninstall(m):
+    """Give replicat.repository its real primitives back (for runs without the scheduler)."""
+    for k, v in _ORIGINALS.get(m.__name__, {}).items():
+        setattr(m, k, v)
+
+
 def install(m):
     """Replace the concurrency primitives in replicat.repository's namespace."""
+    _ORIGINALS.setdefault(m.__name__, {k: getattr(m, k) for k in ('ThreadPoolExecutor', 'threading', 'queue', 'concurrent', 'asyncio')})
     m.ThreadPoolExecutor = CExecutor
     m.threading = types.SimpleNamespace(Lock=CLock, Event=CEvent)
     m.queue = types.SimpleNamespace(Queue=CQueue, Empty=_queue.Empty, Full=_queue.Full)
